@@ -1,3 +1,441 @@
-/-! # C03 — property theorems (stub: filled in when the property's model is built) -/
+import ScenicModel.Props.C03Geo
+import ScenicModel.Lemmas.RegionSampling
+import ScenicModel.Gen.RegionSampling
+
+/-!
+# C03 — positions drawn in/on a region lie in it, reach all of it, and are uniform
+
+Part 1 (this file): the discrete/atomic clauses.  A region is a finite list of equal-measure atoms
+(for point sets and grids the atoms *are* the points, so these statements are exact); a sampler is a
+sub-probability mass list and `mass p x` is the probability that `x` is returned.  For every sampler the
+three clauses of the property are stated together:
+
+* membership  — atoms outside the (composed) set have mass 0,
+* support     — every atom of the (composed) set has positive mass,
+* uniformity  — all atoms of the (composed) set have the *same* mass (so, conditional on a point being
+                returned, the distribution is uniform on the composed set, not on an operand).
+
+All statements are about the samplers instantiated with the data `Scenic.Gen.samplerCfg` regenerated
+from `regions.py` on every run; `gen_sampler_cfg` is the side condition re-decided each time.
+
+Part 2 (`Props/C03Geo.lean`): closed-form samplers and candidate balls over exact rationals.
+-/
 namespace Scenic.C03
+open Scenic.RegionSampling Scenic.Gen
+
+variable {α : Type} [DecidableEq α]
+
+/-- side condition on generated data: the generic samplers have the shape the theorems are about -/
+theorem gen_sampler_cfg : samplerCfg = SamplerCfg.reference := by decide
+
+/-- side condition on generated data: the point-set sampler does test membership in the other region -/
+theorem gen_ball_filter : ballFilter ≠ BallFilter.none := by decide
+
+/-! ## point sets and grids -/
+
+/-- `PointSetRegion.uniformPointInner` / `GridRegion`: exactly uniform over the points, nothing else. -/
+theorem pointset_uniform (pts : List α) (h : pts.Nodup) (x : α) :
+    mass (uniformList pts) x = if x ∈ pts then 1 / (pts.length : Rat) else 0 :=
+  mass_uniformList_nodup pts h x
+
+/-- with repeated points the code weights a point by its multiplicity (what the code does). -/
+theorem pointset_multiplicity (pts : List α) (x : α) :
+    mass (uniformList pts) x = (pts.count x : Rat) / (pts.length : Rat) :=
+  mass_uniformList pts x
+
+example : mass (uniformList [3, 5, 8]) 5 = 1 / 3 ∧ mass (uniformList [3, 5, 8]) 4 = 0 := by decide +kernel
+
+/-! ## union -/
+
+/-- **Union** (any number of operands of one dimension, any overlaps): every atom of the union has
+    probability exactly `1 / Σ|Rᵢ|` of being returned, atoms outside have probability 0.
+    The measure is that of the composed set: an atom lying in several operands is *not* favoured, and
+    the operand that happened to be sampled does not matter. -/
+theorem union_uniform (d : Nat) (μ : Rat) (hμ : 0 < μ) (Rs : List (List α))
+    (hnd : ∀ R ∈ Rs, R.Nodup) (x : α) :
+    ∃ p, unionSampler samplerCfg (Rs.map (primOperand d μ)) = some p ∧
+      mass p x = if (∃ R ∈ Rs, x ∈ R) then 1 / (((Rs.map List.length).sum : Nat) : Rat) else 0 := by
+  rw [gen_sampler_cfg]; exact union_mass d μ hμ Rs hnd x
+
+/-- support clause of the union, spelled out -/
+theorem union_support (d : Nat) (μ : Rat) (hμ : 0 < μ) (Rs : List (List α))
+    (hnd : ∀ R ∈ Rs, R.Nodup) (x : α) (R : List α) (hR : R ∈ Rs) (hx : x ∈ R) :
+    ∃ p, unionSampler samplerCfg (Rs.map (primOperand d μ)) = some p ∧ 0 < mass p x := by
+  obtain ⟨p, hp, hm⟩ := union_uniform d μ hμ Rs hnd x
+  refine ⟨p, hp, ?_⟩
+  rw [hm, if_pos ⟨R, hR, hx⟩]
+  have hpos : 0 < (Rs.map List.length).sum := by
+    have h1 : 0 < R.length := List.length_pos_of_mem hx
+    have h2 : R.length ≤ (Rs.map List.length).sum :=
+      List.single_le_sum (by intro _ _; exact Nat.zero_le _) _ (List.mem_map.mpr ⟨R, hR, rfl⟩)
+    omega
+  have : (0 : Rat) < (((Rs.map List.length).sum : Nat) : Rat) := by exact_mod_cast hpos
+  positivity
+
+/-- **Union with operands of lower dimension** (e.g. a volume ∪ a surface ∪ a point set): only the
+    top-dimensional operands are sampled, weighted by size, and every atom of their union that lies in
+    none of the lower-dimensional operands (those are null sets for the top-dimensional measure) has mass
+    `1 / Σ|Rᵢ|` over the top-dimensional operands only. -/
+theorem union_lowdim_ignored (d : Nat) (μ : Rat) (hμ : 0 < μ) (R : List α) (Rs : List (List α))
+    (hnd : ∀ S ∈ R :: Rs, S.Nodup) (smalls : List (Operand α))
+    (hsm : ∀ o ∈ smalls, ∃ e, o.dim = some e ∧ e < d) (x : α)
+    (hx : ∀ o ∈ smalls, o.contains x = false) :
+    ∃ p, unionSampler samplerCfg ((R :: Rs).map (primOperand d μ) ++ smalls) = some p ∧
+      mass p x = if (∃ S ∈ R :: Rs, x ∈ S)
+        then 1 / ((((R :: Rs).map List.length).sum : Nat) : Rat) else 0 := by
+  rw [gen_sampler_cfg]
+  refine ⟨_, unionSampler_mixed d μ R Rs smalls hsm, ?_⟩
+  apply union_mass_core d μ hμ (R :: Rs) hnd
+  unfold containCount
+  rw [List.filter_append, List.length_append]
+  have h0 : (smalls.filter fun o => o.contains x) = [] := by
+    apply List.filter_eq_nil_iff.mpr
+    intro o ho; simp [hx o ho]
+  rw [h0, List.length_nil, Nat.add_zero]
+  exact containCount_prim d μ (R :: Rs) x
+
+example : ∃ p, unionSampler samplerCfg ([[1, 2, 3], [3, 4]].map (primOperand 2 1) ++ [primOperand 0 1 [9, 8]]) = some p ∧
+    mass p 3 = 1 / 5 ∧ mass p 9 = 0 :=
+  ⟨_, rfl, by decide +kernel⟩
+
+example : ∃ p, unionSampler samplerCfg ([[1, 2, 3], [3, 4]].map (primOperand 0 1)) = some p ∧
+    mass p 3 = 1 / 5 ∧ mass p 1 = 1 / 5 ∧ mass p 4 = 1 / 5 ∧ mass p 7 = 0 :=
+  ⟨_, rfl, by decide +kernel⟩
+
+/-- Why each ingredient is needed (negation witnesses on mutated shapes):
+    without the multiplicity rejection the shared atom is twice as likely … -/
+theorem union_without_rejection_not_uniform :
+    ∃ p, unionSampler { SamplerCfg.reference with unionAccept := .always }
+        ([[1, 2, 3], [3, 4]].map (primOperand 0 1)) = some p ∧ mass p 3 = 2 / 5 ∧ mass p 1 = 1 / 5 :=
+  ⟨_, rfl, by decide +kernel⟩
+
+/-- … and with unit weights instead of sizes the atoms of the smaller operand are favoured. -/
+theorem union_unit_weights_not_uniform :
+    ∃ p, unionSampler { SamplerCfg.reference with unionWeight := .one }
+        ([[1, 2, 3], [4]].map (primOperand 0 1)) = some p ∧ mass p 1 = 1 / 6 ∧ mass p 4 = 1 / 2 :=
+  ⟨_, rfl, by decide +kernel⟩
+
+/-! ## intersection -/
+
+/-- the composed set of an intersection: what every operand's `_trueContainsPoint` accepts -/
+def inAllOps (ops : List (Operand α)) (x : α) : Bool := ops.all (·.contains x)
+
+/-- **Intersection, compositional form.**  Whatever operands are sampled (primitive or themselves
+    composed, with their own rejections), if each sampled operand is uniform on the composed set `I`
+    (equal masses on `I`), then so is the intersection, and nothing outside `I` is ever returned. -/
+theorem intersection_uniform (ops : List (Operand α)) (p : SubPMF α)
+    (hp : interSampler samplerCfg ops = some p)
+    (hu : ∀ o ∈ ops, ∀ q, o.sampler = some q →
+      ∀ x y, inAllOps ops x = true → inAllOps ops y = true → mass q x = mass q y) :
+    (∀ x y, inAllOps ops x = true → inAllOps ops y = true → mass p x = mass p y) ∧
+    (∀ x, inAllOps ops x = false → mass p x = 0) := by
+  rw [gen_sampler_cfg, interSampler_reference] at hp
+  split at hp
+  · exact absurd hp (by simp)
+  · simp only [Option.some.injEq] at hp
+    subst hp
+    have hsub : ∀ o ∈ interSamplingRegions SamplerCfg.reference ops, o ∈ ops := by
+      intro o ho
+      unfold interSamplingRegions at ho
+      split at ho
+      · exact ho
+      · exact List.mem_of_mem_filter ho
+    apply interFirstFit_uniform (fun x => ops.all (·.contains x))
+    intro q hq x y hx hy
+    obtain ⟨o, ho, hoq⟩ := List.mem_map.mp hq
+    exact hu o (hsub o ho) q hoq x y hx hy
+
+/-- **Intersection of primitive regions of one dimension** (e.g. point sets): membership, support and
+    uniformity on `⋂ Rᵢ`, with an explicit lower bound for the common mass. -/
+theorem intersection_prim_uniform (d : Nat) (μ : Rat) (R : List α) (Rs : List (List α))
+    (hnd : ∀ S ∈ R :: Rs, S.Nodup) :
+    ∃ p, interSampler samplerCfg ((R :: Rs).map (primOperand d μ)) = some p ∧
+      (∀ x y, (∀ S ∈ R :: Rs, x ∈ S) → (∀ S ∈ R :: Rs, y ∈ S) → mass p x = mass p y) ∧
+      (∀ x, (¬ ∀ S ∈ R :: Rs, x ∈ S) → mass p x = 0) ∧
+      (∀ x, (∀ S ∈ R :: Rs, x ∈ S) → 1 / (R.length : Rat) ≤ mass p x ∧ 0 < mass p x) := by
+  have hall : ∀ x, inAllOps ((R :: Rs).map (primOperand d μ)) x = true ↔ ∀ S ∈ R :: Rs, x ∈ S := by
+    intro x
+    simp [inAllOps, primOperand]
+  -- all operands have dimension d, so all of them are sampled, in order
+  have hsamp : interSamplingRegions SamplerCfg.reference ((R :: Rs).map (primOperand d μ))
+      = (R :: Rs).map (primOperand d μ) := by
+    unfold interSamplingRegions
+    have hdims : ((R :: Rs).map (primOperand d μ)).filterMap (·.dim) = (R :: Rs).map fun _ => d := by
+      generalize R :: Rs = L
+      induction L with
+      | nil => rfl
+      | cons S L ih => simp [primOperand] at ih ⊢; exact ih
+    rw [hdims]
+    have hmin : listMin ((R :: Rs).map fun _ => d) = some d := by
+      simp only [List.map_cons, listMin]
+      congr 1
+      generalize Rs = L
+      induction L with
+      | nil => rfl
+      | cons S L ih => simpa using ih
+    rw [hmin]
+    apply List.filter_eq_self.mpr
+    intro o ho
+    obtain ⟨S, _, rfl⟩ := List.mem_map.mp ho
+    simp [primOperand, SamplerCfg.reference, CmpOp.eval]
+  have hsome : interSampler samplerCfg ((R :: Rs).map (primOperand d μ)) =
+      some (interFirstFit (fun x => ((R :: Rs).map (primOperand d μ)).all (·.contains x))
+        (((R :: Rs).map (primOperand d μ)).map (·.sampler))) := by
+    rw [gen_sampler_cfg, interSampler_reference, hsamp]
+    simp [primOperand]
+  refine ⟨_, hsome, ?_, ?_, ?_⟩
+  · intro x y hx hy
+    have := intersection_uniform ((R :: Rs).map (primOperand d μ)) _ hsome ?_
+    · exact this.1 x y ((hall x).mpr hx) ((hall y).mpr hy)
+    · intro o ho q hq x y hx hy
+      obtain ⟨S, hS, rfl⟩ := List.mem_map.mp ho
+      simp only [primOperand, Option.some.injEq] at hq
+      subst hq
+      rw [mass_uniformList_nodup S (hnd S hS), mass_uniformList_nodup S (hnd S hS)]
+      simp [(hall x).mp hx S hS, (hall y).mp hy S hS]
+  · intro x hx
+    have := intersection_uniform ((R :: Rs).map (primOperand d μ)) _ hsome ?_
+    · apply this.2 x
+      cases h : inAllOps ((R :: Rs).map (primOperand d μ)) x
+      · rfl
+      · exact absurd ((hall x).mp h) hx
+    · intro o ho q hq x y hx hy
+      obtain ⟨S, hS, rfl⟩ := List.mem_map.mp ho
+      simp only [primOperand, Option.some.injEq] at hq
+      subst hq
+      rw [mass_uniformList_nodup S (hnd S hS), mass_uniformList_nodup S (hnd S hS)]
+      simp [(hall x).mp hx S hS, (hall y).mp hy S hS]
+  · intro x hx
+    have hvalid : ∀ S : List α, IsSubPMF (uniformList S) := by
+      intro S
+      constructor
+      · intro e he
+        simp only [uniformList, List.mem_map] at he
+        obtain ⟨_, _, rfl⟩ := he
+        positivity
+      · by_cases hS : S.length = 0
+        · have : S = [] := List.length_eq_zero_iff.mp hS
+          subst this; simp [uniformList, total]
+        · have hS' : (S.length : Rat) ≠ 0 := by exact_mod_cast hS
+          have : total (uniformList S) = 1 := by
+            simp only [uniformList, total, List.map_map]
+            have : (Prod.snd ∘ fun x : α => (x, 1 / (S.length : Rat))) = fun _ => 1 / (S.length : Rat) := rfl
+            rw [this, List.map_const', List.sum_replicate]
+            simp; field_simp
+          rw [this]
+    have hge := interFirstFit_ge_first
+      (fun x => ((R :: Rs).map (primOperand d μ)).all (·.contains x))
+      (uniformList R) ((Rs.map (primOperand d μ)).map (·.sampler)) (hvalid R)
+      (by
+        intro q hq
+        obtain ⟨o, ho, hoq⟩ := List.mem_map.mp hq
+        obtain ⟨S, _, rfl⟩ := List.mem_map.mp ho
+        simp only [primOperand, Option.some.injEq] at hoq
+        subst hoq; exact hvalid S)
+      x ((hall x).mpr hx)
+    have hxR : x ∈ R := hx R (by simp)
+    rw [mass_uniformList_nodup R (hnd R (by simp)), if_pos hxR] at hge
+    have hlen : (0 : Rat) < (R.length : Rat) := by
+      have : 0 < R.length := List.length_pos_of_mem hxR
+      exact_mod_cast this
+    have h1 : (0 : Rat) < 1 / (R.length : Rat) := by positivity
+    have hge' : 1 / (R.length : Rat) ≤ mass (interFirstFit
+        (fun x => ((R :: Rs).map (primOperand d μ)).all (·.contains x))
+        (((R :: Rs).map (primOperand d μ)).map (·.sampler))) x := hge
+    exact ⟨hge', lt_of_lt_of_le h1 hge'⟩
+
+example : ∃ p, interSampler samplerCfg ([[1, 2, 3, 4], [2, 4, 6], [4, 2, 9]].map (primOperand 0 1)) = some p ∧
+    mass p 2 = mass p 4 ∧ 0 < mass p 2 ∧ mass p 1 = 0 ∧ mass p 6 = 0 :=
+  ⟨_, rfl, by decide +kernel⟩
+
+/-! ## difference -/
+
+/-- **Difference**: the sample of `A` is returned exactly when `B` does not contain it; hence if `A`'s
+    sampler is uniform on `A` the result is uniform on `A \ B`, nothing of `B` is returned, and every
+    atom of `A \ B` keeps its (positive) mass. -/
+theorem difference_uniform (a b : Operand α) (p : SubPMF α) (h : a.sampler = some p) (x : α) :
+    ∃ q, diffSampler samplerCfg a b = some q ∧
+      mass q x = if b.contains x then 0 else mass p x := by
+  rw [gen_sampler_cfg]; exact mass_diffSampler a b p h x
+
+/-- the primitive case spelled out -/
+theorem difference_prim_uniform (d : Nat) (μ : Rat) (A : List α) (hA : A.Nodup) (b : Operand α) (x : α) :
+    ∃ q, diffSampler samplerCfg (primOperand d μ A) b = some q ∧
+      mass q x = if x ∈ A ∧ b.contains x = false then 1 / (A.length : Rat) else 0 := by
+  obtain ⟨q, hq, hm⟩ := difference_uniform (primOperand d μ A) b (uniformList A) rfl x
+  refine ⟨q, hq, ?_⟩
+  rw [hm, mass_uniformList_nodup A hA]
+  cases b.contains x <;> simp
+
+example : ∃ q, diffSampler samplerCfg (primOperand 0 1 [1, 2, 3, 4]) (primOperand 0 1 [2, 9]) = some q ∧
+    mass q 1 = 1 / 4 ∧ mass q 2 = 0 ∧ mass q 9 = 0 := ⟨_, rfl, by decide +kernel⟩
+
+/-! ## point set ∩ region, driven by the other region's candidate ball -/
+
+/-- The specialised sampler of `PointSetRegion.intersect` is uniform on `{p ∈ P | o ∋ p}` **iff** the
+    candidate ball (`o.circumcircle`) covers that set.  (`⇐` is why `circumcircle` must be an upper
+    bound — see `sector_circumcircle_sound` etc.; `⇒` is why a wrong radius silently loses points.) -/
+theorem pointset_inter_uniform_iff (P : List α) (hP : P.Nodup) (inBall contains : α → Bool) :
+    (∀ x, mass (ballSampler P inBall contains) x = mass (uniformList (P.filter contains)) x)
+      ↔ (∀ p ∈ P, contains p = true → inBall p = true) := by
+  constructor
+  · intro h p hp hc
+    by_contra hb
+    have hb' : inBall p = false := by simpa using hb
+    have h1 := h p
+    rw [mass_ballSampler, mass_uniformList_nodup _ (hP.filter _), mass_uniformList_nodup _ (hP.filter _)] at h1
+    have hin : p ∈ P.filter contains := List.mem_filter.mpr ⟨hp, hc⟩
+    have hnin : p ∉ P.filter fun q => inBall q && contains q := by
+      intro hm
+      have := (List.mem_filter.mp hm).2
+      simp [hb'] at this
+    rw [if_neg hnin, if_pos hin] at h1
+    have hlen : (0 : Rat) < ((P.filter contains).length : Rat) := by
+      have : 0 < (P.filter contains).length := List.length_pos_of_mem hin
+      exact_mod_cast this
+    have : (0 : Rat) < 1 / ((P.filter contains).length : Rat) := by positivity
+    linarith
+  · intro h x
+    rw [mass_ballSampler]
+    have : (P.filter fun q => inBall q && contains q) = P.filter contains := by
+      apply List.filter_congr
+      intro q hq
+      cases hc : contains q
+      · simp
+      · simp [h q hq hc]
+    rw [this]
+
+/-- consequently (ball covers the set): membership, support and uniformity on `{p ∈ P | o ∋ p}` -/
+theorem pointset_inter_uniform (P : List α) (hP : P.Nodup) (inBall contains : α → Bool)
+    (hcover : ∀ p ∈ P, contains p = true → inBall p = true) (x : α) :
+    mass (ballSampler P inBall contains) x =
+      if x ∈ P ∧ contains x = true then 1 / ((P.filter contains).length : Rat) else 0 := by
+  rw [(pointset_inter_uniform_iff P hP inBall contains).mpr hcover x,
+    mass_uniformList_nodup _ (hP.filter _)]
+  simp [List.mem_filter]
+
+example : mass (ballSampler [1, 2, 3, 4, 5] (fun n => n ≤ 4) (fun n => n % 2 = 0)) 2 = 1 / 2 := by
+  decide +kernel
+
+/-- a ball that is too small: the point 4 of the intersection is never produced -/
+theorem small_ball_loses_points :
+    mass (ballSampler [1, 2, 3, 4, 5] (fun n => n ≤ 3) (fun n => n % 2 = 0)) 4 = 0 ∧
+    mass (uniformList ([1, 2, 3, 4, 5].filter fun n => n % 2 = 0)) 4 = 1 / 2 := by decide +kernel
+
+/-! ## polylines / paths: segment chosen in proportion to its length -/
+
+/-- `PolylineRegion`/`PathRegion`: segment `i` consists of `|segs i|` atoms of length `μ`; it is chosen with
+    weight `μ·|segs i|` and a position on it uniformly.  The probability of an atom is its multiplicity
+    over all segments divided by the total number of atoms … -/
+theorem segments_mass (μ : Rat) (hμ : μ ≠ 0) (segs : List (List α)) (x : α) :
+    mass (weightedPick segs (fun s => μ * (s.length : Rat)) uniformList) x =
+      ((segs.map fun s => (s.count x : Rat)).sum) / (((segs.map List.length).sum : Nat) : Rat) :=
+  mass_weightedPick_uniform μ hμ segs x
+
+/-- … hence exactly uniform w.r.t. length when the segments do not overlap. -/
+theorem segments_uniform (μ : Rat) (hμ : μ ≠ 0) (segs : List (List α))
+    (hnd : ∀ s ∈ segs, s.Nodup) (hdisj : segs.Pairwise fun s t => ∀ a, a ∈ s → a ∉ t) (x : α) :
+    mass (weightedPick segs (fun s => μ * (s.length : Rat)) uniformList) x =
+      if (∃ s ∈ segs, x ∈ s) then 1 / (((segs.map List.length).sum : Nat) : Rat) else 0 := by
+  rw [segments_mass μ hμ]
+  have hcount : (segs.map fun s => (s.count x : Rat)).sum = if (∃ s ∈ segs, x ∈ s) then 1 else 0 := by
+    induction segs with
+    | nil => simp
+    | cons s segs ih =>
+      have ih' := ih (fun t ht => hnd t (by simp [ht])) (List.pairwise_cons.mp hdisj).2
+      have hs := hnd s (by simp)
+      have hd := (List.pairwise_cons.mp hdisj).1
+      rw [List.map_cons, List.sum_cons, ih', List.Nodup.count hs]
+      by_cases hx : x ∈ s
+      · have : ¬ ∃ t ∈ segs, x ∈ t := by
+          rintro ⟨t, ht, hxt⟩; exact hd t ht x hx hxt
+        simp [hx, this]
+      · simp [hx]
+  rw [hcount]
+  split <;> simp
+
+/-- overlapping segments (possible in a `MultiLineString`) are *not* handled: the shared atom counts twice -/
+theorem segments_overlap_doubled :
+    mass (weightedPick [[1, 2], [2, 3]] (fun s => (s.length : Rat)) uniformList) 2 = 1 / 2 ∧
+    mass (weightedPick [[1, 2], [2, 3]] (fun s => (s.length : Rat)) uniformList) 1 = 1 / 4 := by
+  decide +kernel
+
+/-! ## polygons: triangle chosen by area, then bounding-box rejection -/
+
+/-- The `while True` loop of `PolygonalRegion.uniformPointInner`, truncated after `n` rounds: for every
+    `n` the result is the uniform distribution on the triangle's atoms scaled by `1 - (1 - q)^n`, where
+    `q` = (atoms of the box inside the triangle)/(atoms of the box).  So the loop returns a uniform point
+    of the triangle with probability tending to 1 (it is 1 in the limit as soon as `q > 0`). -/
+theorem rejection_loop_limit (box : List α) (hbox : box ≠ []) (inTri : α → Bool) (n : Nat) (x : α) :
+    mass (rejectionLoop box inTri n) x =
+      (1 - (1 - ((box.filter inTri).length : Rat) / (box.length : Rat)) ^ n) *
+        mass (uniformList (box.filter inTri)) x := by
+  rw [mass_rejectionLoop]
+  set q : Rat := ((box.filter inTri).length : Rat) / (box.length : Rat) with hq
+  rw [← geom_closed q n, mass_uniformList, mass_uniformList]
+  have hb : (box.length : Rat) ≠ 0 := by
+    have : box.length ≠ 0 := by simpa [List.length_eq_zero_iff] using hbox
+    exact_mod_cast this
+  by_cases ht : inTri x = true
+  · simp only [ht, if_true]
+    rw [List.count_filter ht]
+    by_cases hh : ((box.filter inTri).length : Rat) = 0
+    · have hnil : box.filter inTri = [] := by
+        have : (box.filter inTri).length = 0 := by exact_mod_cast hh
+        exact List.length_eq_zero_iff.mp this
+      have hx : box.count x = 0 := by
+        apply List.count_eq_zero_of_not_mem
+        intro hm
+        have : x ∈ box.filter inTri := List.mem_filter.mpr ⟨hm, ht⟩
+        rw [hnil] at this
+        exact absurd this (by simp)
+      simp [hx]
+    · rw [hq]; field_simp
+  · have hx : (box.filter inTri).count x = 0 := by
+      apply List.count_eq_zero_of_not_mem
+      intro hm
+      exact ht (List.mem_filter.mp hm).2
+    simp [ht, hx]
+
+/-- `0 ≤ 1 - q < 1` whenever some box atom lies in the triangle, so `(1 - q)^n → 0` -/
+theorem rejection_ratio_bounds (box : List α) (inTri : α → Bool) (a : α) (ha : a ∈ box) (hin : inTri a = true) :
+    0 ≤ 1 - ((box.filter inTri).length : Rat) / (box.length : Rat) ∧
+    1 - ((box.filter inTri).length : Rat) / (box.length : Rat) < 1 := by
+  have hb : (0 : Rat) < (box.length : Rat) := by
+    have : 0 < box.length := List.length_pos_of_mem ha
+    exact_mod_cast this
+  have hf : (0 : Rat) < ((box.filter inTri).length : Rat) := by
+    have : 0 < (box.filter inTri).length := List.length_pos_of_mem (List.mem_filter.mpr ⟨ha, hin⟩)
+    exact_mod_cast this
+  have hle : ((box.filter inTri).length : Rat) ≤ (box.length : Rat) := by
+    exact_mod_cast List.length_filter_le inTri box
+  constructor
+  · have : ((box.filter inTri).length : Rat) / (box.length : Rat) ≤ 1 := (div_le_one hb).mpr hle
+    linarith
+  · have : 0 < ((box.filter inTri).length : Rat) / (box.length : Rat) := div_pos hf hb
+    linarith
+
+/-- **Polygon** (limit sampler: each triangle's loop replaced by its limit, the uniform distribution on
+    the triangle): with triangles that do not overlap, chosen with weight proportional to their area,
+    every atom of the polygon has probability `1 / (number of atoms)`. -/
+theorem polygon_uniform (μ : Rat) (hμ : μ ≠ 0) (tris : List (List α))
+    (hnd : ∀ t ∈ tris, t.Nodup) (hdisj : tris.Pairwise fun s t => ∀ a, a ∈ s → a ∉ t) (x : α) :
+    mass (weightedPick tris (fun t => μ * (t.length : Rat)) uniformList) x =
+      if (∃ t ∈ tris, x ∈ t) then 1 / (((tris.map List.length).sum : Nat) : Rat) else 0 :=
+  segments_uniform μ hμ tris hnd hdisj x
+
+example : mass (rejectionLoop [1, 2, 3, 4] (fun n => n ≤ 3) 2) 1 = (1 - (1 / 4) ^ 2) * (1 / 3) := by
+  decide +kernel
+
+/-- **Outer rejection** (the guard proposed for triangulations that overshoot the polygon, and the reason why
+    `DifferenceRegion` is uniform): discarding the draws outside a set `T` keeps equal masses equal — a sampler
+    that is uniform on a superset stays uniform on `T`, and nothing outside `T` is returned. -/
+theorem outer_rejection_uniform (p : SubPMF α) (inT : α → Bool) (x y : α)
+    (hx : inT x = true) (hy : inT y = true) (heq : mass p x = mass p y) :
+    mass (p.filter fun e => inT e.1) x = mass (p.filter fun e => inT e.1) y ∧
+    (∀ z, inT z = false → mass (p.filter fun e => inT e.1) z = 0) := by
+  refine ⟨?_, ?_⟩
+  · rw [mass_filter inT, mass_filter inT, hx, hy]; simpa using heq
+  · intro z hz; rw [mass_filter inT, hz]; simp
+
 end Scenic.C03
